@@ -4,7 +4,7 @@
 // the cases (inputs + observed results) as a Coq file for the comparison with
 // coq/C04/Model.v, and evaluates the property oracle on the implementation's
 // own observations: the seat count must be the least j whose binomial
-// distribution function (computed here with 700-bit floats, independently of
+// distribution function (computed here with 640-bit floats, independently of
 // the Coq model) reaches hash/(2^256-1), within the float band; credentials
 // must be rejected under every single-field perturbation; a priority is
 // accepted only if it is the maximum of the winner's seat hashes.
@@ -21,6 +21,7 @@ import (
 	"path/filepath"
 	"sort"
 	"strings"
+	"time"
 
 	"github.com/youchainhq/go-youchain/common"
 	"github.com/youchainhq/go-youchain/consensus/ucon"
@@ -31,7 +32,7 @@ import (
 	"verif/harness/vf"
 )
 
-const prec = 700
+const prec = 640
 
 // stable key of the listed finding
 const whatPanic = "choose panics (cephes: parameter out of bounds) when the committee size exceeds the total stake"
@@ -79,6 +80,7 @@ type dist struct {
 	pm     *big.Float // pmf(j)
 	cdf    *big.Float // cdf(j)
 	prev   *big.Float // cdf(j-1)
+	tmp    *big.Float
 }
 
 func newDist(n int64, a, b *big.Int) *dist {
@@ -100,21 +102,24 @@ func newDist(n int64, a, b *big.Int) *dist {
 	d.pm = pm
 	d.cdf = newf().Set(pm)
 	d.prev = newf()
+	d.tmp = newf()
 	return d
 }
 
 // step advances to j+1 (j < n)
 func (d *dist) step() {
-	d.prev = newf().Set(d.cdf)
+	d.prev.Set(d.cdf)
 	if d.j+1 >= d.n {
 		d.j++
-		d.cdf = bfi(1)
+		d.cdf.SetInt64(1)
 		return
 	}
-	d.pm.Mul(d.pm, bfi(d.n-d.j))
-	d.pm.Quo(d.pm, bfi(d.j+1))
+	d.tmp.SetInt64(d.n - d.j)
+	d.pm.Mul(d.pm, d.tmp)
+	d.tmp.SetInt64(d.j + 1)
+	d.pm.Quo(d.pm, d.tmp)
 	d.pm.Mul(d.pm, d.ratio)
-	d.cdf = newf().Add(d.cdf, d.pm)
+	d.cdf.Add(d.cdf, d.pm)
 	d.j++
 }
 
@@ -131,6 +136,11 @@ func quantile(t *big.Float, n int64, a, b *big.Int, maxSteps int64) (int64, *big
 			return 0, newf(), newf(), true
 		}
 		return n, newf(), bfi(1), true
+	}
+	// the quantile lies within a few standard deviations of the mean: do not
+	// start a walk that cannot finish within maxSteps
+	if mean := new(big.Int).Div(new(big.Int).Mul(big.NewInt(n), a), b); mean.Cmp(big.NewInt(maxSteps*9/10)) > 0 {
+		return 0, nil, nil, false
 	}
 	d := newDist(n, a, b)
 	for d.j < n {
@@ -201,7 +211,7 @@ func pFloat(a uint64, b *big.Int) float64 {
 	return f
 }
 
-const maxOracleSteps = 400000
+const maxOracleSteps = 60000
 
 // oracleChoose: the property on one observation of choose.
 func oracleChoose(hb *big.Int, n int64, a, b *big.Int, jg int64, panicked bool) string {
@@ -247,12 +257,9 @@ func zb(x *big.Int) string {
 }
 func zi(x int64) string { return zb(big.NewInt(x)) }
 func qCoq(a, b *big.Int) string { return fmt.Sprintf("(%s # %s)", zb(a), b.String()) }
+// a byte string as one number: 1 followed by the bytes, base 256 (Model.bytes_key)
 func bytesCoq(b []byte) string {
-	xs := make([]string, len(b))
-	for i, c := range b {
-		xs[i] = fmt.Sprintf("%d", c)
-	}
-	return "[" + strings.Join(xs, ";") + "]"
+	return new(big.Int).SetBytes(append([]byte{1}, b...)).String()
 }
 func tblCoq(t [][2]interface{}) string {
 	var xs []string
@@ -696,7 +703,11 @@ func runProtocol(rec *Rec, toCoq bool) outcome {
 	if toCoq && affordable {
 		var kt [][2]interface{}
 		if perr == nil {
-			kt = ktblFor(common.Hash(pth), int64(vsub)+3)
+			upto := int64(vsub) + 3
+			if upto > vstake.Int64()+3 { // seats beyond the stake are never hashed
+				upto = vstake.Int64() + 3
+			}
+			kt = ktblFor(common.Hash(pth), upto)
 		}
 		o.coq = fmt.Sprintf("CVerifyPrio %s %d %d %s %d %d %s %s %s %s %d", zb(hInt(vseed)), vindex, vrole, zb(hInt(vprio)), vsub, vth, zb(vstake), zb(vtotal), tblCoq(vt), tblCoq(kt), code)
 	}
@@ -936,7 +947,7 @@ func genRec(r *vf.Rng) *Rec {
 		}
 		return &Rec{Kind: "makem", Seed: hex32(seed), Role: vals[r.Intn(len(vals))], Index: vals[r.Intn(len(vals))]}
 	case k < 62:
-		j := int64(r.Heavy(300))
+		j := int64(r.Heavy(100))
 		if r.Chance(10) {
 			j = []int64{0, 1, 255, 256, 257}[r.Intn(5)]
 		}
@@ -1019,7 +1030,12 @@ func gen(seed uint64, n int, outDir, corpusDir string) {
 	distinct := map[string]bool{}
 	total := 0
 	handle := func(rec *Rec) {
+		t0 := time.Now()
 		o := run(rec, true)
+		if d := time.Since(t0); d > 2*time.Second && os.Getenv("C04_DEBUG") != "" {
+			js, _ := json.Marshal(rec)
+			fmt.Fprintln(os.Stderr, "slow case", d, string(js))
+		}
 		total++
 		res.Count(o.class)
 		if rec.Kind == "choose" && rec.Comment != "" && !strings.HasPrefix(rec.Comment, "corpus:") {
@@ -1047,7 +1063,13 @@ func gen(seed uint64, n int, outDir, corpusDir string) {
 	// cases that go to Coq are bounded by n; the implementation-only (large
 	// stake) cases ride along
 	for len(coqCases) < n {
-		handle(genRec(r))
+		t0 := time.Now()
+		rec := genRec(r)
+		if d := time.Since(t0); d > 2*time.Second && os.Getenv("C04_DEBUG") != "" {
+			js, _ := json.Marshal(rec)
+			fmt.Fprintln(os.Stderr, "slow gen", d, string(js))
+		}
+		handle(rec)
 	}
 	var sb strings.Builder
 	sb.WriteString("From VF.C04 Require Import Model.\nLocal Open Scope Z_scope.\nDefinition cases : list case := [\n")
@@ -1057,7 +1079,7 @@ func gen(seed uint64, n int, outDir, corpusDir string) {
 	res.Cases = len(coqCases)
 	res.Distinct = len(distinct)
 	res.Extra["implementation_only_cases"] = total - len(coqCases)
-	res.Rule = "a case is one call of search / choose / MakeM / computePriority / VrfSortition / VrfVerifySortition / VrfVerifyPriority on the real code (real secp256k1 VRF) with the observed result; hashes: uniform, 0, 1, max-1, max, around the 0.99 switch, deep tails, and placed at cdf(j)(1 +- delta) for delta in {0,1e-13,...,1e-2}; stakes 1..300 go to the Coq model (exact binomial), stakes up to 10^7 only to the harness' own 700-bit quantile oracle; committee/total from params.Versions thresholds and random, including 0, 1 and > 1; credentials are verified untouched and under every single-field change; distinct = distinct Coq case terms"
+	res.Rule = "a case is one call of search / choose / MakeM / computePriority / VrfSortition / VrfVerifySortition / VrfVerifyPriority on the real code (real secp256k1 VRF) with the observed result; hashes: uniform, 0, 1, max-1, max, around the 0.99 switch, deep tails, and placed at cdf(j)(1 +- delta) for delta in {0,1e-13,...,1e-2}; stakes 1..300 go to the Coq model (exact binomial), stakes up to 10^7 only to the harness' own 640-bit quantile oracle; committee/total from params.Versions thresholds and random, including 0, 1 and > 1; credentials are verified untouched and under every single-field change; distinct = distinct Coq case terms"
 	res.Write(filepath.Join(outDir, "result.json"))
 }
 
